@@ -71,6 +71,46 @@ func VerifC09_FuseRead() {
 	}
 }
 
+// VerifC09_FuseStoreErrors: the same FUSE handle over a store whose k-th GetChunk fails
+// (k chosen by the solver).  A request is answered either with an error status or with the
+// complete, correct range - a store failure on the second chunk of a request that spans a
+// chunk boundary must not turn into a short OK reply (the kernel would zero-fill and cache it).
+func VerifC09_FuseStoreErrors() {
+	k, reads := 2, 1
+	if vTier() > 0 {
+		k, reads = 2+vChoose("chunks", 2), 2
+	}
+	blob, idx, st := verifBlobIndex(k, 2)
+	st.useAt, st.failGetAt, st.failHasAt, st.failPutAt = true, vInt("fail-get-at"), -1, -1
+	vAssume(st.failGetAt >= 0 && st.failGetAt < 2*reads)
+	length := int64(len(blob))
+	h := newIndexFileHandle(idx, st)
+	for q := 0; q < reads; q++ {
+		off := vI64("offset")
+		vAssume(off >= 0 && off <= length)
+		l := vChoose("size", 5)
+		dest := make([]byte, l)
+		failedBefore := st.observed
+		res, errno := h.read(dest, off)
+		vCover("fuse-read")
+		if errno != 0 {
+			vAssert(st.observed && !failedBefore, "EIO although no store request of this read failed")
+			continue
+		}
+		b, _ := res.Bytes(nil)
+		want := length - off
+		if want > int64(l) {
+			want = int64(l)
+		}
+		vAssert(int64(len(b)) == want, "FUSE read answered OK with fewer bytes than exist for the range (store failure swallowed?)")
+		ok := true
+		for c := 0; c < len(b) && int64(c) < want; c++ {
+			ok = vAnd(ok, b[c] == blob[off+int64(c)])
+		}
+		vAssert(ok, "FUSE read returned bytes that differ from the blob")
+	}
+}
+
 type verifC09Ref struct {
 	r      *IndexPos
 	blob   []byte
